@@ -278,3 +278,13 @@ func (m *aggModel) nextExpiry() (time.Time, bool) {
 func (f *aggFlow) String() string {
 	return fmt.Sprintf("flow{key=%d cat=%d end=%d ready=%v retries=%d active=+%v inactive=+%v}", f.Key, f.Cat, f.End, f.Ready, f.Retries, f.Active.Sub(bubbleEpoch), f.Inactive.Sub(bubbleEpoch))
 }
+
+// sortedKeys: the flows' keys in ascending order (oracles report in a fixed order).
+func (m *aggModel) sortedKeys() []int {
+	ks := make([]int, 0, len(m.Flows))
+	for k := range m.Flows {
+		ks = append(ks, k)
+	}
+	sort.Ints(ks)
+	return ks
+}
